@@ -233,6 +233,10 @@ func readConfig(filename string) (configuration, error) {
 }
 
 func makePassword(pw string, algorithm string, iterations, length, saltlen, cost int) (group.Password, error) {
+	if strings.IndexByte(pw, 0) >= 0 {
+		return group.Password{},
+			errors.New("password contains a NUL byte")
+	}
 	salt := make([]byte, saltlen)
 	_, err := rand.Read(salt)
 	if err != nil {
